@@ -853,6 +853,10 @@ func Body(t *Term) string {
 		e, m := fpSort(t.Args[0].W)
 		op := map[Op]string{OpFPLt: "fp.lt", OpFPLe: "fp.leq", OpFPEq: "fp.eq"}[t.Op]
 		fmt.Fprintf(&b, "(%s ((_ to_fp %d %d) %s) ((_ to_fp %d %d) %s))", op, e, m, Ref(t.Args[0]), e, m, Ref(t.Args[1]))
+	case OpFPCvt:
+		e0, m0 := fpSort(t.Args[0].W)
+		e1, m1 := fpSort(t.W)
+		fmt.Fprintf(&b, "(fp.to_ieee_bv ((_ to_fp %d %d) RNE ((_ to_fp %d %d) %s)))", e1, m1, e0, m0, Ref(t.Args[0]))
 	case OpFPIsNaN:
 		e, m := fpSort(t.Args[0].W)
 		fmt.Fprintf(&b, "(fp.isNaN ((_ to_fp %d %d) %s))", e, m, Ref(t.Args[0]))
